@@ -15,6 +15,9 @@
 
 #include "mc_common.hpp"
 
+#ifndef VM_CALL_MAXARGS
+#define VM_CALL_MAXARGS 3   // call syntax with up to this many arguments is instantiated (viewmc/basemc: 4); each extra argument triples the instantiations per view type
+#endif
 namespace vm {
 namespace multi = boost::multi;
 using idx = std::ptrdiff_t;
@@ -27,16 +30,16 @@ constexpr int DMAX = VM_DMAX;
 enum Kind : unsigned char {
 	INDEX, SLICED, SLICED3, STRIDED, DROPPED, TAKED, ROTATED, UNROTATED, TRANSPOSED, TILDE, REVERSED, DIAGONAL,
 	PARTITIONED, CHUNKED, FLATTED, PAREN0, CALL,
-	REINDEXED, BLOCKED, STENCILED, REINDEXEDN,  // C19 only
+	REINDEXED, BLOCKED, STENCILED, REINDEXEDN, STENCILEDN,  // C19 only
 	NKINDS
 };
 static char const* const kname[] = {"index", "sliced", "sliced3", "strided", "dropped", "taked", "rotated", "unrotated", "transposed", "tilde", "reversed", "diagonal",
-	"partitioned", "chunked", "flatted", "paren0", "call", "reindexed", "blocked", "stenciled", "reindexedn"};
+	"partitioned", "chunked", "flatted", "paren0", "call", "reindexed", "blocked", "stenciled", "reindexedn", "stenciledn"};
 
 enum AKind : unsigned char { A_IDX, A_RNG, A_ALL };
 struct Arg { unsigned char kind; signed char a, b; };
 struct Op {
-	Kind k = INDEX; signed char a = 0, b = 0, c = 0; unsigned char nargs = 0; Arg args[3] = {};
+	Kind k = INDEX; signed char a = 0, b = 0, c = 0, d = 0; unsigned char nargs = 0; Arg args[4] = {};
 };
 inline Op mk(Kind k, idx a = 0, idx b = 0, idx c = 0) { Op o; o.k = k; o.a = static_cast<signed char>(a); o.b = static_cast<signed char>(b); o.c = static_cast<signed char>(c); return o; }
 
@@ -47,8 +50,8 @@ inline std::string op_str(Op const& o) {
 		case INDEX: case STRIDED: case DROPPED: case TAKED: case PARTITIONED: case CHUNKED: case REINDEXED: s += I(o.a); break;
 		case SLICED: case BLOCKED: case STENCILED: s += I(o.a) + "," + I(o.b); break;
 		case SLICED3: s += I(o.a) + "," + I(o.b) + "," + I(o.c); break;
-		case REINDEXEDN: s += I(o.a) + "," + I(o.b); if(o.nargs >= 3) { s += "," + I(o.c); } break;
-		case CALL:
+		case REINDEXEDN: s += I(o.a) + "," + I(o.b); if(o.nargs >= 3) { s += "," + I(o.c); } if(o.nargs >= 4) { s += "," + I(o.d); } break;
+		case CALL: case STENCILEDN:
 			for(int j = 0; j < o.nargs; ++j) {
 				if(j) { s += ","; }
 				if(o.args[j].kind == A_IDX) { s += "i" + I(o.args[j].a); }
@@ -63,6 +66,7 @@ inline std::string op_str(Op const& o) {
 // class of an operation for violation keys: name, and for call the argument-kind pattern
 inline std::string op_class(Op const& o) {
 	std::string s = kname[o.k];
+	if(o.k == STENCILEDN || o.k == REINDEXEDN) { s += std::to_string(static_cast<int>(o.nargs)); }
 	if(o.k == CALL) { s += "("; for(int j = 0; j < o.nargs; ++j) { s += (j ? "," : ""); s += (o.args[j].kind == A_IDX ? "i" : o.args[j].kind == A_RNG ? "r" : "_"); } s += ")"; }
 	return s;
 }
@@ -76,9 +80,9 @@ inline bool parse_op(std::string const& t, Op& o) {
 	if(k < 0) { return false; }
 	o = Op{}; o.k = static_cast<Kind>(k);
 	std::vector<std::string> parts; { std::string cur; for(char c : args) { if(c == ',') { parts.push_back(cur); cur.clear(); } else { cur += c; } } if(!cur.empty() || !parts.empty()) { parts.push_back(cur); } }
-	if(o.k == CALL) {
+	if(o.k == CALL || o.k == STENCILEDN) {
 		o.nargs = static_cast<unsigned char>(parts.size());
-		for(std::size_t j = 0; j < parts.size() && j < 3; ++j) {
+		for(std::size_t j = 0; j < parts.size() && j < 4; ++j) {
 			auto const& q = parts[j];
 			if(q == "_") { o.args[j].kind = A_ALL; }
 			else if(q[0] == 'i') { o.args[j].kind = A_IDX; o.args[j].a = static_cast<signed char>(std::atoi(q.c_str() + 1)); }
@@ -88,6 +92,7 @@ inline bool parse_op(std::string const& t, Op& o) {
 		if(parts.size() > 0) { o.a = static_cast<signed char>(std::atoi(parts[0].c_str())); }
 		if(parts.size() > 1) { o.b = static_cast<signed char>(std::atoi(parts[1].c_str())); }
 		if(parts.size() > 2) { o.c = static_cast<signed char>(std::atoi(parts[2].c_str())); }
+		if(parts.size() > 3) { o.d = static_cast<signed char>(std::atoi(parts[3].c_str())); }
 		if(o.k == REINDEXEDN) { o.nargs = static_cast<unsigned char>(parts.size()); }
 	}
 	return true;
@@ -163,7 +168,8 @@ inline bool m_apply(MView& v, Op const& o) {
 			d = nd; return true;
 		}
 		case REINDEXED: d[0].first = o.a; return true;
-		case REINDEXEDN: if(D < o.nargs) { return false; } d[0].first = o.a; d[1].first = o.b; if(o.nargs >= 3) { d[2].first = o.c; } return true;
+		case REINDEXEDN: if(D < o.nargs) { return false; } d[0].first = o.a; d[1].first = o.b; if(o.nargs >= 3) { d[2].first = o.c; } if(o.nargs >= 4) { d[3].first = o.d; } return true;
+		case STENCILEDN: if(D < o.nargs) { return false; } for(int j = 0; j < o.nargs; ++j) { auto u = static_cast<std::size_t>(j); v.base += (o.args[j].a - d[u].first)*d[u].stride; d[u].size = o.args[j].b - o.args[j].a; d[u].first = o.args[j].a; } return true;
 		case BLOCKED: case STENCILED: v.base += (o.a - d[0].first)*d[0].stride; d[0].size = o.b - o.a; d[0].first = o.a; return true;
 		default: return false;
 	}
@@ -228,7 +234,20 @@ inline std::vector<Op> enabled(MView const& v, Menu const& mn) {
 		for(idx k : {idx{-1}, idx{0}, idx{2}}) { r.push_back(mk(REINDEXED, k)); }
 		if(D >= 2) { for(idx a : {idx{-1}, idx{1}}) { for(idx b : {idx{0}, idx{2}}) { Op o = mk(REINDEXEDN, a, b); o.nargs = 2; r.push_back(o); } } }
 		if(D >= 3) { for(idx a : {idx{1}}) { for(idx b : {idx{-1}, idx{2}}) { for(idx c : {idx{0}, idx{3}}) { Op o = mk(REINDEXEDN, a, b, c); o.nargs = 3; r.push_back(o); } } } }
+		if(D >= 4) { Op o = mk(REINDEXEDN, 2, -1, 1); o.d = 3; o.nargs = 4; r.push_back(o); Op o2 = mk(REINDEXEDN, 0, 1, 2); o2.d = -2; o2.nargs = 4; r.push_back(o2); }
 		if(!(v.ro && D >= 2)) { for(idx a = f; a <= l; ++a) { for(idx b = a; b <= l; ++b) { r.push_back(mk(BLOCKED, a, b)); r.push_back(mk(STENCILED, a, b)); } } }
+		if(!(v.ro && D >= 2) && D >= 2 && !v.has_empty_dim()) {   // stenciled with 2..D extensions: per dimension the whole extension, without its first, without its last index
+			for(int k = 2; k <= std::min(D, 4); ++k) {
+				std::vector<std::vector<Arg>> per(static_cast<std::size_t>(k));
+				for(int j = 0; j < k; ++j) { auto u = static_cast<std::size_t>(j); idx fj = v.d[u].first, lj = fj + v.d[u].size; auto A = [](idx a, idx b) { return Arg{A_RNG, static_cast<signed char>(a), static_cast<signed char>(b)}; }; per[u].push_back(A(fj, lj)); per[u].push_back(A(fj + 1, lj)); per[u].push_back(A(fj, lj - 1)); }
+				std::vector<std::size_t> c(static_cast<std::size_t>(k), 0);
+				for(;;) {
+					Op o; o.k = STENCILEDN; o.nargs = static_cast<unsigned char>(k); for(int j = 0; j < k; ++j) { o.args[j] = per[static_cast<std::size_t>(j)][c[static_cast<std::size_t>(j)]]; } r.push_back(o);
+					int j = k - 1; for(; j >= 0; --j) { auto u = static_cast<std::size_t>(j); if(++c[u] < per[u].size()) { break; } c[u] = 0; }
+					if(j < 0) { break; }
+				}
+			}
+		}
 	}
 	return r;
 }
@@ -247,7 +266,7 @@ void call_rec(V&& v, Op const& o, int j, K&& k, B... built) {
 		if constexpr(NB > 0 && NIdx < D) { k(std::forward<V>(v)(built...)); }
 		return;
 	}
-	if constexpr(NB < D && NB < 3) {
+	if constexpr(NB < D && NB < VM_CALL_MAXARGS) {
 		auto const& a = o.args[j];
 		switch(a.kind) {
 			case A_IDX: call_rec<NIdx + 1>(std::forward<V>(v), o, j + 1, k, built..., multi::index{a.a}); return;
@@ -258,44 +277,59 @@ void call_rec(V&& v, Op const& o, int j, K&& k, B... built) {
 }
 
 // apply ONE op to the real view and pass the resulting real view to k
+#define FWV std::forward<V>(v)
+template<class V, class = void> struct has_reindexed1_ : std::false_type {};
+template<class V> struct has_reindexed1_<V, std::void_t<decltype(std::declval<V>().reindexed(idx{}))>> : std::true_type {};   // (1-D views have no const& overload: api gap)
+template<int NB0, class V, class K, class... B>
+void sten_rec(V&& v, Op const& o, int j, K&& k, B... built) {
+	constexpr int D = rank_of<V>;
+	constexpr int NB = static_cast<int>(sizeof...(B));
+	if(j == o.nargs) { if constexpr(NB >= 2) { k(FWV.stenciled(built...)); } return; }
+	if constexpr(NB < D && NB < 4) { sten_rec<NB0>(FWV, o, j + 1, k, built..., multi::index_extension{o.args[j].a, o.args[j].b}); }
+}
 template<class V, class K>
 void apply1(V&& v, Op const& o, K&& k) {
 	constexpr int D = rank_of<V>;
-	constexpr bool GAP = is_ro_v<V> && D >= 2;
+	constexpr bool GAP = (is_ro_v<V> || std::is_const_v<std::remove_reference_t<V>>) && D >= 2;
 	switch(o.k) {
-		case INDEX: if constexpr(D >= 2) { k(v[o.a]); } return;
-		case SLICED: k(v.sliced(o.a, o.b)); return;
-		case SLICED3: if constexpr(!GAP) { k(v.sliced(o.a, o.b, o.c)); } return;
-		case STRIDED: if constexpr(!GAP) { k(v.strided(o.a)); } return;
-		case DROPPED: if constexpr(!GAP) { k(v.dropped(o.a)); } return;
-		case TAKED: if constexpr(!GAP) { k(v.taked(o.a)); } return;
-		case ROTATED: k(v.rotated()); return;
-		case UNROTATED: k(v.unrotated()); return;
-		case TRANSPOSED: if constexpr(D >= 2) { k(v.transposed()); } return;
-		case TILDE: if constexpr(D >= 2) { k(~v); } return;
-		case REVERSED: if constexpr(!GAP) { k(v.reversed()); } return;
-		case DIAGONAL: if constexpr(D >= 2) { k(v.diagonal()); } return;
-		case PARTITIONED: if constexpr(D < DMAX) { k(v.partitioned(o.a)); } return;
-		case CHUNKED: if constexpr(D < DMAX) { k(v.chunked(o.a)); } return;
-		case FLATTED: if constexpr(D >= 2) { k(v.flatted()); } return;
-		case PAREN0: k(v()); return;
+		case INDEX: if constexpr(D >= 2) { k(FWV[o.a]); } return;
+		case SLICED: k(FWV.sliced(o.a, o.b)); return;
+		case SLICED3: if constexpr(!GAP) { k(FWV.sliced(o.a, o.b, o.c)); } return;
+		case STRIDED: if constexpr(!GAP) { k(FWV.strided(o.a)); } return;
+		case DROPPED: if constexpr(!GAP) { k(FWV.dropped(o.a)); } return;
+		case TAKED: if constexpr(!GAP) { k(FWV.taked(o.a)); } return;
+		case ROTATED: k(FWV.rotated()); return;
+		case UNROTATED: k(FWV.unrotated()); return;
+		case TRANSPOSED: if constexpr(D >= 2) { k(FWV.transposed()); } return;
+		case TILDE: if constexpr(D >= 2) { k(~FWV); } return;
+		case REVERSED: if constexpr(!GAP) { k(FWV.reversed()); } return;
+		case DIAGONAL: if constexpr(D >= 2) { k(FWV.diagonal()); } return;
+		case PARTITIONED: if constexpr(D < DMAX) { k(FWV.partitioned(o.a)); } return;
+		case CHUNKED: if constexpr(D < DMAX) { k(FWV.chunked(o.a)); } return;
+		case FLATTED: if constexpr(D >= 2) { k(FWV.flatted()); } return;
+		case PAREN0: k(FWV()); return;
 		case CALL: call_rec<0>(std::forward<V>(v), o, 0, k); return;
 #ifdef VM_REBASE_OPS
-		case REINDEXED: k(v.reindexed(o.a)); return;
+		case REINDEXED: if constexpr(has_reindexed1_<V&&>::value) { k(FWV.reindexed(o.a)); } return;
 		case REINDEXEDN:
-			if constexpr(D >= 2) { if(o.nargs == 2) { k(v.reindexed(o.a, o.b)); return; } }
-			if constexpr(D >= 3) { if(o.nargs == 3) { k(v.reindexed(o.a, o.b, o.c)); return; } }
+			if constexpr(D >= 2) { if(o.nargs == 2) { k(FWV.reindexed(o.a, o.b)); return; } }
+			if constexpr(D >= 3) { if(o.nargs == 3) { k(FWV.reindexed(o.a, o.b, o.c)); return; } }
+			if constexpr(D >= 4) { if(o.nargs == 4) { k(FWV.reindexed(o.a, o.b, o.c, o.d)); return; } }
 			return;
-		case BLOCKED: if constexpr(!GAP) { k(v.blocked(o.a, o.b)); } return;
-		case STENCILED: if constexpr(!GAP) { k(v.stenciled(multi::index_extension{o.a, o.b})); } return;
+		case STENCILEDN: if constexpr(!GAP && D >= 2 && !std::is_const_v<std::remove_reference_t<V>>) { sten_rec<0>(FWV, o, 0, k); } return;
+		case BLOCKED: if constexpr(!GAP && !std::is_const_v<std::remove_reference_t<V>>) { k(v.blocked(o.a, o.b)); } return;   // (no && overload; the const& body an rvalue would select does not compile: api gap)
+		case STENCILED: if constexpr(!GAP && !std::is_const_v<std::remove_reference_t<V>>) { k(FWV.stenciled(multi::index_extension{o.a, o.b})); } return;
 #endif
 		default: return;
 	}
 }
+#undef FWV
 
 template<class V, class K>
 void walk(V&& v, Op const* ops, int n, K&& k) {
 	if(n == 0) { k(std::forward<V>(v)); return; }
+	// intermediate operations are applied to the temporaries as user code chains them (rvalue overloads); the LAST one to a named view (lvalue overload), as the search does
+	if(n == 1) { apply1(v, *ops, [&](auto&& w) { k(std::forward<decltype(w)>(w)); }); return; }
 	apply1(std::forward<V>(v), *ops, [&](auto&& w) { walk(std::forward<decltype(w)>(w), ops + 1, n - 1, k); });
 }
 
@@ -334,6 +368,9 @@ struct Config {
 	Menu menu0;      // menu at depth 0 (root)
 	Menu menu;       // menu deeper
 	int full_call_depth = 1;  // states with hist.size() < this use menu0
+	bool perm_roots = true;     // for rank >= 3: every axis permutation of the root (expressed with rotated/transposed/unrotated) is an additional root, expanded to perm_depth
+	int perm_depth = 1;
+	bool categories = true;     // every transition is also executed through the rvalue (&&) and the const& overload of the operation; both results must be the same view as the lvalue overload's
 	bool adopt_firsts = false;  // C19: the index base of a RESULT is not documented: the model adopts the reported first of every non-empty dimension and checks elements position-wise
 };
 template<class V> void adopt_firsts_from(V const& v, MView& m) {
@@ -342,7 +379,7 @@ template<class V> void adopt_firsts_from(V const& v, MView& m) {
 	auto lens = std::apply([](auto... e) { return std::vector<idx>{static_cast<idx>(e.size())...}; }, xs.base());
 	for(std::size_t j = 0; j < m.d.size() && j < firsts.size(); ++j) { if(lens[j] > 0) { m.d[j].first = firsts[j]; } else { m.d[j].first = 0; } }
 }
-struct Stats { long states = 0, transitions = 0, completed_depth = -1; bool capped = false; };
+struct Stats { long states = 0, transitions = 0, completed_depth = -1, category_runs = 0; bool capped = false; };
 
 // Fingerprint of the REAL view value (base displacement from the root's base in bytes + every layout field the library stores, including the ones the
 // affine model does not have: nelems and offset of every level).  Two results are merged only when model state AND this fingerprint agree, so
@@ -357,28 +394,56 @@ template<class R, class W> std::string real_fp(R const& start, W const& w) {
 	layout_fp_(w.layout(), s); return s;
 }
 
+// histories that realise every non-identity permutation of D axes: bubble sort, adjacent swap (i,i+1) = rotated^i ; transposed ; unrotated^i
+inline std::vector<Hist> perm_hists(int D) {
+	std::vector<Hist> r; std::vector<int> p(static_cast<std::size_t>(D)); for(int i = 0; i < D; ++i) { p[static_cast<std::size_t>(i)] = i; }
+	while(std::next_permutation(p.begin(), p.end())) {
+		std::vector<int> cur(p); Hist h;
+		for(bool sw = true; sw;) { sw = false; for(std::size_t i = 0; i + 1 < cur.size(); ++i) { if(cur[i] > cur[i + 1]) { std::swap(cur[i], cur[i + 1]); for(std::size_t q = 0; q < i; ++q) { h.push_back(mk(ROTATED)); } h.push_back(mk(TRANSPOSED)); for(std::size_t q = 0; q < i; ++q) { h.push_back(mk(UNROTATED)); } sw = true; } } }
+		r.push_back(h);
+	}
+	return r;
+}
+
 // visit(v, model, hist) -> bool : full oracle on a NEW state; return false to mark the state violating (not expanded).
 // The search executes every transition on the implementation (apply1 on the real parent view).
 template<class Root, class Visit>
 Stats bfs(Root& root, MView const& m0, Config const& cfg, std::set<std::string> const& skip, Visit&& visit, std::string const& prefix = "") {
-	struct St { Hist hist; MView m; };
+	struct St { Hist hist; MView m; int plen = 0; };
 	std::deque<St> fr; std::unordered_set<std::string> seen; Stats st;
 	auto start = root();
 	MView mr = m0; mr.ro = is_ro_v<decltype(start)>;
 	seen.insert(key_of(mr) + real_fp(start, start)); ++st.states;
 	{
 		Hist h0; mc::cur_set("root", prefix);
-		if(visit(start, mr, h0)) { fr.push_back(St{h0, mr}); }
+		if(visit(start, mr, h0)) { fr.push_back(St{h0, mr, 0}); }
+	}
+	std::vector<St> proots;
+	if(cfg.perm_roots && m0.rank() >= 3 && !m0.has_empty_dim() && cfg.maxdepth >= 1) {
+		for(auto const& eh : perm_hists(m0.rank())) {
+			MView m2 = mr; bool ok = true; for(auto const& o : eh) { if(!m_apply(m2, o)) { ok = false; } } if(!ok) { continue; }
+			std::string hs = prefix + hist_str(eh); if(skip.count(hs)) { continue; }
+			mc::cur_set("axis-permutation-root", hs);
+			walk(root(), eh.data(), static_cast<int>(eh.size()), [&](auto&& w) {
+				m2.ro = is_ro_v<decltype(w)>; if(cfg.adopt_firsts) { adopt_firsts_from(w, m2); }
+				auto k = key_of(m2) + real_fp(start, w);
+				if(!seen.insert(k).second) { return; }
+				++st.states; ++st.transitions;
+				if(visit(w, m2, eh)) { proots.push_back(St{eh, m2, static_cast<int>(eh.size())}); }
+			});
+		}
 	}
 	int cur_depth = 0;
-	while(!fr.empty()) {
+	bool proots_pushed = false;
+	while(!fr.empty() || !proots_pushed) {
+		if(fr.empty()) { for(auto& pr : proots) { fr.push_back(std::move(pr)); } proots_pushed = true; if(fr.empty()) { break; } }
 		St s = std::move(fr.front()); fr.pop_front();
-		int depth = static_cast<int>(s.hist.size());
-		if(depth > cur_depth) { st.completed_depth = cur_depth; cur_depth = depth; }
-		if(depth >= cfg.maxdepth) { continue; }
+		int depth = static_cast<int>(s.hist.size()) - s.plen;
+		if(s.plen == 0 && depth > cur_depth) { st.completed_depth = cur_depth; cur_depth = depth; }
+		if(depth >= (s.plen ? std::min(cfg.perm_depth, cfg.maxdepth) : cfg.maxdepth)) { continue; }
 		if(mc::past_deadline() || static_cast<long>(seen.size()) > cfg.max_states) { st.capped = true; break; }
-		auto ops = enabled(s.m, depth < cfg.full_call_depth ? cfg.menu0 : cfg.menu);
-		walk(root(), s.hist.data(), depth, [&](auto&& v) {
+		auto ops = enabled(s.m, (s.plen == 0 && depth < cfg.full_call_depth) ? cfg.menu0 : cfg.menu);
+		walk(root(), s.hist.data(), static_cast<int>(s.hist.size()), [&](auto&& v) {
 			for(auto const& o : ops) {
 				MView m2 = s.m;
 				if(!m_apply(m2, o)) { continue; }
@@ -386,21 +451,39 @@ Stats bfs(Root& root, MView const& m0, Config const& cfg, std::set<std::string> 
 				std::string hs = prefix + hist_str(h2);
 				if(skip.count(hs)) { ++st.transitions; continue; }
 				mc::cur_set(op_class(o), hs);
-				bool executed = false;
+				bool executed = false; std::string fp_l;
 				apply1(v, o, [&](auto&& w) {
-					executed = true; ++st.transitions;
+					executed = true; ++st.transitions; fp_l = real_fp(start, w);
 					m2.ro = is_ro_v<decltype(w)>;
 					if(cfg.adopt_firsts) { adopt_firsts_from(w, m2); }
 					auto k = key_of(m2) + real_fp(start, w);
 					if(!seen.insert(k).second) { return; }
 					++st.states;
-					if(visit(w, m2, h2)) { fr.push_back(St{h2, m2}); }
+					if(visit(w, m2, h2)) { fr.push_back(St{h2, m2, s.plen}); }
 				});
 				if(!executed) { mc::R.add("harness_unexpressible"); }
+#ifdef VM_CATEGORIES   // (compiled only where requested — viewmc, basemc: it triples the instantiations of apply1)
+				else if(cfg.categories) {
+					auto differs = [&](char const* cat, std::string const& fp2) {
+						mc::R.violation("D" + std::to_string(s.m.rank()) + "|" + op_class(o) + "|" + cat + "-overload-yields-a-different-view", mc::J().s("harness", "engine:view_model").s("replay", hs).s("trace", hist_str(h2)).s("oracle", std::string("value-category differential (") + cat + " vs lvalue overload)").s("detail", "lvalue overload: base/layout " + fp_l + "; " + cat + " overload: " + fp2).str());
+					};
+					mc::cur_set(op_class(o) + " &&", hs);
+					bool ran = false;
+					apply1(std::move(v), o, [&](auto&& w2) { ran = true; ++st.category_runs; auto f2 = real_fp(start, w2); if(f2 != fp_l) { differs("rvalue", f2); } });
+					constexpr bool rank2 = rank_of<decltype(v)> >= 2;
+					bool const gapop = (rank2 && (o.k == SLICED3 || o.k == STRIDED || o.k == DROPPED || o.k == TAKED || o.k == REVERSED)) || o.k == BLOCKED || o.k == STENCILED || o.k == STENCILEDN;   // bodies that do not compile for const views on this tree (api gaps, recorded in the evidence)
+					if(!gapop) {
+						mc::cur_set(op_class(o) + " const&", hs);
+						apply1(std::as_const(v), o, [&](auto&& w3) { ++st.category_runs; auto f3 = real_fp(start, w3); if(f3 != fp_l) { differs("const", f3); } if(!is_ro_v<decltype(w3)> && !std::is_const_v<std::remove_reference_t<decltype(w3)>>) { mc::R.add("const_overload_returned_mutable_view"); } });
+					}
+					(void)ran;
+				}
+#endif
 			}
 		});
 	}
 	if(!st.capped) { st.completed_depth = cfg.maxdepth; }
+	mc::R.add("overload_category_runs", st.category_runs);
 	return st;
 }
 
